@@ -639,7 +639,7 @@ static void vd_state(vnadata_t *v, char *buf, size_t n)
     }
 }
 
-#define RS_NOBJ 7
+#define RS_NOBJ 9
 static vnadata_t *rs_make(int which, const char **what)
 {
     static const struct { vnadata_parameter_type_t t; int n; int ft;
@@ -659,6 +659,11 @@ static vnadata_t *rs_make(int which, const char **what)
 	{ VPT_Z, 2, VNADATA_FILETYPE_TOUCHSTONE2, "ZdB", 3,
 	    "Z 2x2 with a complex z0, file type Touchstone 2, format "
 	    "\"ZdB\"" },
+	/* two that every file kind accepts: only the path can fail */
+	{ VPT_S, 2, VNADATA_FILETYPE_AUTO, "Sri", 0,
+	    "S 2x2 at 50 ohm, file type never set, format \"Sri\"" },
+	{ VPT_Z, 2, VNADATA_FILETYPE_NPD, "Zma", 0,
+	    "Z 2x2 at 50 ohm, file type NPD, format \"Zma\"" },
     };
     vnadata_t *v = vnadata_alloc_and_init(vf_errfn, &c3_F.elog, tab[which].t,
 	    tab[which].n, tab[which].n, 2);
@@ -690,17 +695,23 @@ static vnadata_t *rs_make(int which, const char **what)
 static void sc_refused_save(vf_result *r)
 {
     fx_t *F = &c3_F;
+    /* the last three lie in a directory that does not exist: a path that
+       cannot be opened is an argument the save is refused for, nothing
+       has been written when fopen fails */
     static const char *const names[] = { "rs.s2p", "rs.s1p", "rs.s4p",
-	"rs.ts", "rs.npd", "rs" };
+	"rs.ts", "rs.npd", "rs", "no-such-dir/rs.s2p", "no-such-dir/rs.npd",
+	"no-such-dir/rs" };
+    enum { NNAMES = 9 };
     static const char *const fns[] = { "vnadata_cksave", "vnadata_save",
 	"vnadata_fsave" };
     int refused = 0, accepted = 0;
 
-    vf_desc(r, "7 vnadata_t objects x 6 file names x cksave / save / fsave: "
-	    "a call refused for its arguments (EINVAL) leaves file type, "
-	    "format, precisions, impedances and data as they were");
+    vf_desc(r, "9 vnadata_t objects x 9 file names x cksave / save / fsave: "
+	    "a call refused for its arguments (EINVAL, or ENOENT for a path "
+	    "in a directory that does not exist) leaves file type, format, "
+	    "precisions, impedances and data as they were");
     for (int o = 0; o < RS_NOBJ; ++o)
-	for (int ni = 0; ni < 6; ++ni)
+	for (int ni = 0; ni < NNAMES; ++ni)
 	    for (int fi = 0; fi < 3; ++fi) {
 		const char *what = "";
 		vnadata_t *v = rs_make(o, &what);
@@ -729,7 +740,8 @@ static void sc_refused_save(vf_result *r)
 		e = errno;
 		++r->transitions;
 		unlink(path);
-		if (rc == -1 && e == EINVAL) {
+		if (rc == -1 && (e == EINVAL || (e == ENOENT && ni >= 6 &&
+				fi == 1))) {
 		    ++refused;
 		    vd_state(v, after, sizeof(after));
 		    if (strcmp(before, after) != 0) {
